@@ -205,6 +205,8 @@ def sendq_order_ambiguous(trace):
     then the order in which a disconnect NACKs them is time-dependent and the exact acceptor
     does not apply to the client session (counted in the evidence, the oracle still runs)."""
     inflight = set()
+    rt = False
+    most = 0
     for t in trace.split():
         if t.startswith("c.tx:"):
             p = tag_parse(t.split(":")[1])
@@ -216,9 +218,10 @@ def sendq_order_ambiguous(trace):
                 inflight.discard(p[1])
         elif t.startswith("c.nack:C"):
             inflight.discard(int(t.split(":")[1][1:]))
-        elif t.startswith("c.rt:") and len(inflight) >= 2:
-            return True
-    return False
+        elif t.startswith("c.rt:"):
+            rt = True
+        most = max(most, len(inflight))
+    return rt and most >= 2
 
 
 def sessions_of(case, trace):
